@@ -453,6 +453,26 @@ def history_programs(dev, same_name=False):
                {"op": "distribute", "src": T, "col": 0, "dst": P, "dw": L([(1, 1), (2, 1)]), "vol": 1, "label": "Last"},
                {"op": "aspirate", "lw": P, "wells": L([(0, 1)]), "vols": S(1), "label": "First"}]
     progs.append(h)
+    # successful operations that follow rejected ones: a split transfer that fails at a later sub-step, a multi-well
+    # add / dispense refused at its second well (the first is booked, nothing is filed), then operations that move
+    # little or nothing - each of them files exactly one entry with its own label and the volumes as they are
+    h = _hdr("history/after-rejections", dev, base_labware(), wlmax=5, flags={"comp": False, "norm": False, "fullhist": True})
+    h["ops"] = [
+        {"op": "transfer", "src": P, "sw": L([(0, 0), (1, 1)]), "dst": T, "dw": L([(0, 2), (1, 2)]), "vols": L([6, 12]), "label": "too much", "wash": 1},
+        {"op": "transfer", "src": Sx, "sw": L([(0, 0)]), "dst": P, "dw": L([(0, 2)]), "vols": S(2), "label": "small", "wash": 1},
+        {"op": "transfer", "src": T, "sw": L([(0, 0)]), "dst": P, "dw": L([(2, 2)]), "vols": S(12), "label": None, "wash": 1},
+        {"op": "add", "lw": P, "wells": L([(0, 3), (2, 3)]), "vols": L([5, 25]), "label": "second well overflows"},
+        {"op": "add", "lw": P, "wells": L([(0, 2)]), "vols": S(0), "label": "nothing"},
+        {"op": "dispense", "lw": P, "wells": L([(1, 3), (2, 3)]), "vols": L([4, 25]), "label": "again the second"},
+        {"op": "aspirate", "lw": P, "wells": L([(0, 2), (2, 2)]), "vols": L([0, 0]), "label": "zero"},
+        {"op": "remove", "lw": P, "wells": L([(1, 3), (1, 0)]), "vols": L([1, 3]), "label": "second well underflows"},
+        {"op": "transfer", "src": P, "sw": L([(0, 2)]), "dst": Sx, "dw": L([(0, 1)]), "vols": S(0), "label": "moves nothing", "wash": 1},
+        {"op": "remove", "lw": P, "wells": L([(2, 2)]), "vols": S(0), "label": None},
+        {"op": "transfer", "src": T, "sw": L([(1, 1), (2, 0)]), "dst": P, "dw": L([(1, 2), (2, 1)]), "vols": L([4, 11]), "label": "", "wash": 1},
+        {"op": "distribute", "src": T, "col": 0, "dst": P, "dw": L([(0, 1), (1, 1)]), "vol": 25, "label": "second destination overflows"},
+        {"op": "distribute", "src": T, "col": 1, "dst": P, "dw": L([(0, 1)]), "vol": 1, "label": "fine"},
+    ]
+    progs.append(h)
     # the history API used directly: log() and condense_log() with a given label, "first", "last" and the default
     h = _hdr("history/api", dev, base_labware(), wlmax=5, flags={"comp": False, "norm": False, "fullhist": True})
     h["ops"] = [
@@ -973,4 +993,33 @@ def config_programs(dev):
         {"op": "setlimits", "lw": T, "minv": 30, "maxv": 60},
         {"op": "distribute", "src": T, "col": 1, "dst": P, "dw": L([(0, 3), (1, 3)]), "vol": 2, "label": "source would fall below 30"},
     ], wlmax=40)
+    # the reduction of a reagent distribution that aspirates too much is applied every time, not once per worklist
+    prog("two-reductions", [
+        {"op": "distribute", "src": T, "col": 0, "dst": P, "dw": L([(0, 2), (1, 2), (2, 2)]), "vol": 2, "label": "two per aspirate"},
+        {"op": "distribute", "src": T, "col": 0, "dst": P, "dw": L([(0, 3), (1, 3), (2, 3)]), "vol": 2, "label": "two per aspirate again"},
+        {"op": "setconfig", "maxv": 3},
+        {"op": "distribute", "src": T, "col": 1, "dst": P, "dw": L([(0, 1), (1, 1), (2, 1)]), "vol": 2, "label": "one per aspirate"},
+        {"op": "distribute", "src": T, "col": 1, "dst": P, "dw": L([(0, 0), (1, 0), (2, 0)]), "vol": 3, "label": "one per aspirate again"},
+    ], wlmax=5)
+    # a negative volume is refused whether or not volumes are split
+    neg = {"op": "transfer", "src": T, "sw": L([(0, 0), (1, 0)]), "dst": P, "dw": L([(0, 1), (1, 1)]), "vols": L([-1, 2]), "wash": 1}
+    prog("negative-without-splitting", [
+        dict(neg, label="refused"),
+        dict(same, label="refused as well: 6 > 5"),
+        {"op": "setconfig", "autosplit": True},
+        dict(neg, label="refused with splitting, too"),
+        dict(same, label="split"),
+        {"op": "setconfig", "autosplit": False, "maxv": 10},
+        dict(neg, label="refused again"),
+        dict(same, label="fits"),
+    ], wlmax=5, autosplit=False)
+    if dev == "evo":
+        # every program once more on a worklist constructed through the deprecated name `robotools.Worklist`
+        import copy
+
+        for h in list(progs):
+            a = copy.deepcopy(h)
+            a["id"] += "-alias"
+            a["wl"]["alias"] = True
+            progs.append(a)
     return progs
